@@ -85,8 +85,8 @@ add("C18", "exploration", "full product of curves x hashes x encodings with Open
     "Full product of 17 curves x 5 hashes x 3 encodings x canonisation: random and deterministic library signatures verify in the library and in OpenSSL, OpenSSL signatures verify in the library, deterministic signatures equal an independent RFC 6979 + textbook ECDSA reference; EVERY single-bit change of the message and of the encoded signature (all bits on 5 curves quick / all 17 thorough, one bit per byte otherwise), other keys, out-of-range r/s and truncated/extended encodings must be rejected with BadSignatureError.",
     "OpenSSL 3 CLI and the RFC 6979 reference (pinned to RFC vectors) trusted; messages and keys are seed-derived.",
     "E1+E3", "DESIGN.md 4/C18")
-add("C20", "model_checking", "stateful DFS over all interleavings of the real RWLock under a controlled scheduler, TLC model graph replayed in lock-step, and exhaustive single-preemption exploration of shared curve objects",
-    "The real RWLock (threading.Lock replaced by a cooperative lock) is explored completely at lock-operation granularity for 2R+1W, 1R+2W and 2R+2W (thorough: 3R+2W, two rounds): mutual exclusion in every state, no deadlock state, two readers inside reachable; the complete TLC state graph of a TLA+ model of the algorithm is walked in lock-step with the implementation graph (every model edge replayed on the code, bijection of states). For shared curve objects thread A is preempted at every source-line event inside the library and thread B runs a complete operation on the same object; all results must equal the sequential ones.",
+add("C20", "model_checking", "stateful DFS over all interleavings of the real RWLock under a controlled scheduler, TLC model graph replayed in lock-step, and exhaustive one- and two-preemption exploration of shared curve objects",
+    "The real RWLock (threading.Lock replaced by a cooperative lock) is explored completely at lock-operation granularity for 2R+1W, 1R+2W and 2R+2W (thorough: 3R+2W, two rounds): mutual exclusion in every state, no deadlock state, two readers inside reachable; the complete TLC state graph of a TLA+ model of the algorithm is walked in lock-step with the implementation graph (every model edge replayed on the code, bijection of states). For shared curve objects thread A is preempted at every source-line event inside the library and thread B runs a complete operation on the same object; all results must equal the sequential ones; in addition every schedule with two preemptions placed at shared-state accesses (A to its i-th access, B to its j-th, A to its end, B to its end) is run for the small-curve scenarios.",
     "Exploration granularity is lock operations / source lines under the GIL; P-256 scenarios are capped per source line in the quick tier (reported); harness programs are loop-free.",
     "E4", "DESIGN.md 4/C20")
 ENGINES.append({"name": "E4 schedule explorer", "path": "vf/sched.py", "serves_properties": ["C20"],
